@@ -47,7 +47,7 @@ from harness.gen import SchemaGen, ValueGen
 ID = "C02"
 TIE_MODULES = ["StathamModel.Tie"]
 PROOF_MODULES = ['StathamModel.Py.EvalTree', 'StathamModel.Py.EvalClass', 'StathamModel.Lemmas.EvalTree', 'StathamModel.Lemmas.EvalClass',
-                 'StathamModel.Lemmas.ReachAdequate', 'StathamModel.Lemmas.TreeGraph', 'StathamModel.Lemmas.ModuleExec']
+                 'StathamModel.Lemmas.ReachAdequate', 'StathamModel.Lemmas.TreeGraph', 'StathamModel.Lemmas.ModuleExec', "StathamModel.Props.C02Draft6"]
 ASSUMPTIONS = ["json_ref_dict resolves references (trusted); documents are non-recursive",
                "text-level printing (quoting, line layout, CPython literal repr) is compared through Python's own parser, not modelled"]
 N_DOCS = {"quick": 200, "thorough": 8000}
